@@ -322,7 +322,7 @@ package stringlib
 //@ func Format
 //@   prop C04
 //@   arith int
-//@   requires t != nil && t.Runtime != nil && len(values) <= 1000000000
+//@   requires t != nil && t.Runtime != nil
 //@   modifies everything()
 //@   exits ContextTerminationError
 //@   loop 1: invariant 0 <= i && i <= len(format) && 0 <= j && j <= len(args) && len(args) == len(values) && len(outFormat) == len(format)
